@@ -1,5 +1,6 @@
 import RR.Model.RingDriver
 import RR.Model.WaitDriver
+import RR.Model.SchedDriver
 import RR.Model.ConcDriver
 
 /-! `rrdriver`: one request per line on stdin, one answer per line on stdout.
@@ -12,6 +13,7 @@ def dispatch (line : String) : String :=
   | "ring" :: rest => RingDriver.handle (" ".intercalate rest)
   | "ringnew" :: rest => RingDriver.handleNew (" ".intercalate rest)
   | "conc" :: rest => ConcDriver.handle (" ".intercalate rest)
+  | "sched" :: rest => SchedDriver.handle (" ".intercalate rest)
   | "wait" :: rest => WaitDriver.handle (" ".intercalate rest)
   | _ => "bad-model"
 
